@@ -153,8 +153,18 @@ static char *gen_request (void)
     {
         int k = rng_n (100);
         if (k < 35 || k >= 80) {                     /* invert / f_invert: well conditioned, singular, anything */
-            int s = rng_n (10);
-            if (s < 5) { for (int i = 0; i < 9; i++) m[i] = rng_range (-4 * 65536, 4 * 65536); if (rng_chance (50)) { m[6] = m[7] = 0; m[8] = 65536; } }
+            int s = rng_n (15);
+            if (s >= 10) { /* exactly singular / nearly singular with LARGE entries: double rounding of the determinant matters */
+                int big = 1 + rng_n (22);
+                for (int i = 0; i < 3; i++) m[i] = (int32_t) rng_u32 () >> big;
+                if (s == 10 || s == 12) { for (int i = 0; i < 3; i++) m[3 + i] = (int32_t) rng_u32 () >> big; }                       /* rank 2, independent rows */
+                else if (s == 11 || s == 13) { for (int i = 0; i < 3; i++) m[3 + i] = clamp32 ((int64_t) m[i] + rng_range (-3, 3)); }   /* rank 2, nearly proportional rows: tiny minors */
+                else { int k1 = rng_range (-2, 2); for (int i = 0; i < 3; i++) m[3 + i] = clamp32 ((int64_t) k1 * m[i]); }              /* rank 1 */
+                { int a = rng_range (-1, 1), b = rng_range (-1, 1); if (s == 14) b = 0; for (int i = 0; i < 3; i++) m[6 + i] = clamp32 ((int64_t) a * m[i] + (int64_t) b * m[3 + i]); }
+                if (rng_chance (50)) { int p = rng_n (3), q = rng_n (3); for (int i = 0; i < 3; i++) { int32_t t = m[p * 3 + i]; m[p * 3 + i] = m[q * 3 + i]; m[q * 3 + i] = t; } }
+                if (s >= 12 && rng_chance (60)) { int n = 1 + rng_n (2); while (n--) { int e = rng_n (9); m[e] = clamp32 ((int64_t) m[e] + rng_range (-2, 2)); } }   /* one or two entries off by a unit or two */
+            }
+            else if (s < 5) { for (int i = 0; i < 9; i++) m[i] = rng_range (-4 * 65536, 4 * 65536); if (rng_chance (50)) { m[6] = m[7] = 0; m[8] = 65536; } }
             else if (s < 8) { /* exactly singular with small entries */ for (int i = 0; i < 6; i++) m[i] = rng_range (-4000, 4000) * (rng_chance (50) ? 16 : 1); int a = rng_range (-3, 3), b = rng_range (-3, 3); for (int i = 0; i < 3; i++) m[6 + i] = a * m[i] + b * m[3 + i];
                 if (rng_chance (30)) { int p = rng_n (3), q = rng_n (3); for (int i = 0; i < 3; i++) { int32_t t = m[p * 3 + i]; m[p * 3 + i] = m[q * 3 + i]; m[q * 3 + i] = t; } } }
             else gen_matrix (m);
